@@ -149,7 +149,11 @@ func TestVerifRaceC20(t *testing.T) {
 		t.Fatalf("scratch: %v", err)
 	}
 	defer os.RemoveAll(dir)
-	for round := 0; round < 20 && !rep.OutOfBudget(); round++ {
+	rounds := 20
+	if vh.Quick() {
+		rounds = 5
+	}
+	for round := 0; round < rounds && !rep.OutOfBudget(); round++ {
 		start := time.Now()
 		lim, err := NewIPRequestLimiter(5, 20*time.Millisecond, start, "10.0.0.0/8", filepath.Join(dir, "log.json"))
 		if err != nil {
